@@ -51,6 +51,8 @@ structure Facts where
   /-- createStructDesc / newStructDescAndPrefetch / prefetchSubStructDesc / fetchStructDesc /
       rollbackBuild consist of exactly the statements `BuildCache.lean` models, in that order -/
   buildProtocol : Bool
+  -- unknownfields.go and its three call sites in Decode are, statement by statement, UnknownIdx.lean
+  unknownIndexProtocol : Bool
   -- C18
   hotPathHeapSites : Nat
   hotPathHeapSiteList : List String
